@@ -12,6 +12,7 @@ RULE = ('every item sequence up to the length bound over 5-6 key classes whose k
         'event sequence with two parent keys (group indices of different parents must not collide). Output sequence and the '
         'group lifetimes at the head of the inner pipeline are compared with a partition-by-equality model. '
         'Non-trivial = at least two groups and one group with two items.')
+DEEP_PROBES = ('keys with equal hashes, four distinct falsy keys, 10-13 inner groups spread over two parents in all 2^n ways, 129 / 300 (65 544 thorough) live groups, 600 (40 000 thorough) items of group churn, two group_by operators under lifetime creators')
 ASSUMPTIONS = ['key_mapper is total and pure and returns hashable values',
                'sequence lengths and class counts beyond the bound are not covered']
 LEVEL_TEXT = ('Bounded-exhaustive model checking of the real group_by operator against a partition-by-== model over all '
